@@ -42,8 +42,8 @@ type v4model struct {
 func v4configs(thorough bool) []v4model {
 	if thorough {
 		return []v4model{
-			{v4cfg{name: "k3 direct+relay+hlen", clients: 3, hlen: true, relay: true}, 6, 3, 5 * time.Minute},
-			{v4cfg{name: "k2 direct+relay+hlen", clients: 2, hlen: true, relay: true}, 6, 0, 3 * time.Minute},
+			{v4cfg{name: "k3 direct+relay+hlen", clients: 3, hlen: true, relay: true}, 6, 2, 4 * time.Minute},
+			{v4cfg{name: "k2 direct+relay+hlen", clients: 2, hlen: true, relay: true}, 6, 0, 6 * time.Minute},
 		}
 	}
 	return []v4model{
@@ -94,7 +94,8 @@ type v4sys struct {
 	now      func() time.Time // time source
 	// tookOver: ACKs by which a MAC was given the address of ANOTHER MAC's lease-table entry that
 	// carried the very circuit-id of the request (witness marker for the circuit-id class)
-	tookOver []string
+	tookOver   []string
+	tookOverIP map[string]string // address -> how it was taken over
 	noStale  bool             // leases are born expired (Engine B "expired" scenarios): skip the expired-not-removed check
 }
 
@@ -225,6 +226,15 @@ func (s *v4sys) v(kind, site, f string, a ...any) {
 	d := fmt.Sprintf(f, a...)
 	if len(s.tookOver) > 0 && (kind == "O1-ack-leased-to-other" || kind == "O2-two-bindings") {
 		d += " {line take-over earlier: " + strings.Join(s.tookOver, "; ") + "}"
+	}
+	if kind == "O5-declined-reoffered" {
+		// the declined address is one that a take-over duplicated: the first holder's (expired but
+		// present) entry was used to DECLINE it while the second holder's lease on it lives on
+		for ip, how := range s.tookOverIP {
+			if strings.Contains(d, " "+ip+" ") {
+				d += " {declined address was duplicated by a line take-over: " + how + "}"
+			}
+		}
 	}
 	s.viols = append(s.viols, explore.Viol{Kind: kind, Site: site, Detail: d})
 }
@@ -407,6 +417,10 @@ func (s *v4sys) msg(n, kind, circuit string) string {
 			}
 			for _, l := range pre {
 				if mc != "" && l.CircuitID == mc && l.Key != myKey && ip4s(l.IP) == x {
+					if s.tookOverIP == nil {
+						s.tookOverIP = map[string]string{}
+					}
+					s.tookOverIP[x] = fmt.Sprintf("%s from %s on circuit %s", n, s.who(l.Key), mc)
 					s.tookOver = append(s.tookOver, fmt.Sprintf("%s was ACKed %s from %s's table entry carrying circuit %s", n, x, s.who(l.Key), mc))
 				}
 			}
